@@ -193,8 +193,14 @@ def materialise(case, root: Path):
             wb.remove(wb.active)
             for sh in f["sheets"]:
                 ws = wb.create_sheet(sh["name"])
-                for r in sh["rows"]:
-                    ws.append([sc(c) for c in r])
+                # cells are written individually and only when they hold a value: leading rows (and, with
+                # "col_offset", leading columns) that the generator leaves blank are really absent from the file,
+                # so the sheet's first used row / column need not be row 1 / column A
+                off = sh.get("col_offset", 0)
+                for i, r in enumerate(sh["rows"]):
+                    for j, c in enumerate(r):
+                        if c is not None and c != "":
+                            ws.cell(row=i + 1, column=j + 1 + off, value=sc(c))
             wb.save(p)
         else:
             p.write_text("not a startable file\n")
@@ -663,7 +669,7 @@ def gen_sheet(rng, fi, si, name, elements, xlsx, offsets=True):
 
     first = True
     if offsets:
-        lead = rng.choice([0, 0, 1, 2, 3])
+        lead = rng.choice([0, 0, 1, 2, 3, 4])
         if lead and rng.random() < 0.3 and not (elements and elements[0][0] == "meta"):
             truth.append({"ty": "BLANK", "row": 0, "name": None})
             rows.append(cells(None if xlsx else "", "comment " + tok))
